@@ -16,7 +16,7 @@ from vf.harness import c01, c02
 from vf.ref import refexec
 
 PID = 'C05'
-RETS = ['ok', 'continue', 'fail', 'fail_subtest', 'skip', 'stop', 'repeat', 'raise', 'bad', 'bad0', 'hang', 'sysexit', 'hangswallow']
+RETS = ['ok', 'continue', 'fail', 'fail_subtest', 'skip', 'stop', 'repeat', 'raise', 'bad', 'bad0', 'badstr', 'badrep', 'hang', 'sysexit', 'hangswallow']
 MEAS_DIAG = [
     ('none', []), ('pass', []), ('fail', []), ('unset', []), ('marg', []), (['fail', 'pass'], []), (['unset', 'fail', 'pass'], []),
     ('none', ['A']), ('none', ['FA']), ('none', ['raise']), ('none', ['raise', 'FA']), ('none', ['none', 'A']),
@@ -110,7 +110,7 @@ def monitored_cases():
   from vf import htf as vhtf  # pylint: disable=g-import-not-at-top
   from openhtf.core import monitors  # pylint: disable=g-import-not-at-top
   bad, n = [], 0
-  for ret in ('ok', 'continue', 'fail', 'skip', 'stop', 'repeat', 'raise', 'bad', 'bad0', 'sysexit'):
+  for ret in ('ok', 'continue', 'fail', 'skip', 'stop', 'repeat', 'raise', 'bad', 'bad0', 'badstr', 'badrep', 'sysexit'):
     obs = []
     for monitored in (False, True):
       ctx = progs.RunCtx()
